@@ -211,7 +211,9 @@ def items(tier, seed):
   for b in ('eval', 'locals', 'globals', 'super', 'eval_hidden', 'super_inherited', 'super_chain',
             # explicit namespaces (given, empty, None) must be used exactly as the builtin uses them; an explicit
             # two-argument super followed by a zero-argument one (the call wrapper's caches sit in between)
-            'eval_globals', 'eval_both', 'eval_empty', 'eval_none', 'eval_missing', 'super_both'):
+            'eval_globals', 'eval_both', 'eval_empty', 'eval_none', 'eval_missing', 'super_both',
+            # a keyword given explicitly and again through ** (or through two ** mappings) is a TypeError in Python
+            'kw_clash', 'kw_two_maps', 'kw_no_clash'):
     for depth in range(0, 4):
       for ctx in itertools.product(('if', 'for', 'while'), repeat=depth):
         yield ('ctx', b, ctx)
@@ -443,6 +445,12 @@ def ctx_source(b, ctx, pid):
     L.append(pad + "r = r * 10 + eval('x + 1', None, None) + eval('x + GV', None, {'x': 50}) + x * 0")
   elif b == 'eval_missing':
     L.append(pad + "r = r * 10 + eval('x + 1', {}, {}) + x * 0")
+  elif b == 'kw_clash':
+    L.append(pad + "r = r * 10 + len(sorted([3, 1], reverse=True, **{'reverse': False})) + x * 0")
+  elif b == 'kw_two_maps':
+    L.append(pad + "r = r * 10 + int('101', **{'base': 2}, **{'base': 10}) + x * 0")
+  elif b == 'kw_no_clash':
+    L.append(pad + "r = r * 10 + sorted([3, 1], **{'reverse': True}, **{'key': abs})[0] + x * 0")
   elif b == 'super_both':
     L.append(pad + 'r = r * 10 + super(Child, self).m(zo, d)')
     L.append(pad + 'r = r * 10 + super().m(zo, d)')
